@@ -9,7 +9,9 @@
 //     is a MsgApp from the context's groups: From/To are the groups' replica ids, group names are the
 //     context's, no snapshot, reject, reject hint or context bytes, and the groups' node ids are the two
 //     ends of the stream;
-//   - any other message is sent in full and is unconstrained.
+//   - any other message is sent in full and is unconstrained;
+//   - frames respect the decoder's size limit (readBytesLimit bytes per message / entry,
+//     readBytesLimit/8 entries per compact frame).
 package main
 
 import (
@@ -42,6 +44,7 @@ func wfSeq(codec string, local, remote uint64, ms []raftpb.Message) bool {
 		return true
 	}
 	var st v2ctx
+	limit := rafthttp.VerifReadBytesLimit()
 	hb := rafthttp.VerifLinkHeartbeat()
 	hbs := fmtMsg(&hb)
 	for i := range ms {
@@ -58,8 +61,19 @@ func wfSeq(codec string, local, remote uint64, ms []raftpb.Message) bool {
 				m.FromGroup.NodeId == remote && m.ToGroup.NodeId == local) {
 				return false
 			}
+			if uint64(len(m.Entries)) > limit/8 {
+				return false
+			}
+			for k := range m.Entries {
+				if uint64(m.Entries[k].Size()) > limit {
+					return false
+				}
+			}
 			st.index += uint64(len(m.Entries))
 		default:
+			if uint64(m.Size()) > limit {
+				return false
+			}
 			st.term, st.index, st.to, st.from = m.Term, m.Index, m.ToGroup, m.FromGroup
 			if l := len(m.Entries); l > 0 {
 				st.index = m.Entries[l-1].Index
